@@ -128,7 +128,7 @@ CLAIMED = {
              "run from the working tree under a background client load; pid files, socket file, process table and refused "
              "connections at quiescent checkpoints are validated by TLC against specs/UpgradeTrace.tla, whose ops drive the "
              "Upgrade actions (clauses on observed values = verdict; difference from the model state = drift)."
-             " Histories include WINCH / HUP on a daemonized old master (back-out, then the next upgrade), a new release that cannot boot, runs without a configured pid file, --timeout 0, servers started from a symlinked release directory that is switched before every USR2, HUP while an upgrade is pending, and worker turnover during a pending upgrade (MasterLeftWithoutWorkers).",
+             " Histories include WINCH / HUP on a daemonized old master (back-out, then the next upgrade), a new release that cannot boot, runs without a configured pid file, --timeout 0, servers started from a symlinked release directory that is switched before every USR2, HUP while an upgrade is pending, and worker turnover during a pending upgrade (MasterLeftWithoutWorkers). Run alongside (outside the property, drift only): specs/Listeners.tla, where a starting master gets its listeners from (activation variables, fd:// binds, what is at the unix path, a taken port), followed on real starts. Deployments include settings given through GUNICORN_CMD_ARGS.",
         design_ref="DESIGN.md 4 C14, 9",
         technique="TLA+ model checking of the two-master protocol + TLC trace validation of real upgrade histories"),
     "C16": dict(
@@ -184,7 +184,7 @@ CLAIMED = {
              "time/signal replaced inside gunicorn.arbiter only; real WorkerTmp heartbeat files in virtual time); TLC -simulate "
              "behaviours are replayed (projected state compared after every master operation), explicit dangerous windows "
              "and seeded random schedules are recorded; every run is judged by TLC against specs/ArbiterTrace.tla."
-             " Real servers whose workers cannot boot are judged against specs/BootTrace.tla. Real servers whose workers cannot boot (application import, post_fork, post_worker_init) are judged by specs/BootTrace.tla.",
+             " Real servers whose workers cannot boot are judged against specs/BootTrace.tla. Real servers whose workers cannot boot (application import, post_fork, post_worker_init) are judged by specs/BootTrace.tla. Run alongside (outside the property, differences reported as drift only): specs/Lifecycle.tla, the order of the server hooks, checked by TLC, as an inductive invariant by Apalache, and followed on the hook logs of real servers; a booted worker killed by a signal under statsd deployments (BootTrace event death).",
         design_ref="DESIGN.md 4 C03, 9",
         technique="TLA+ model checking (safety + liveness) of the master loop with an asynchronous SIGCHLD handler + TLC trace validation of the real Arbiter.run() on a simulated kernel"),
     "C04": dict(
@@ -254,7 +254,9 @@ def main():
             "add_only": True,
         },
         "engines": [{"name": "tlc", "path": "/verif/harness/tlc.py", "serves_properties": sorted(CLAIMED),
-                     "kind_free_text": "TLC 1.8 model checker: exhaustive / simulate runs of /verif/specs/*.tla and batch trace validation"}],
+                     "kind_free_text": "TLC 1.8 model checker: exhaustive / simulate runs of /verif/specs/*.tla and batch trace validation"},
+                    {"name": "apalache", "path": "/verif/harness/props/lifecycle.py", "serves_properties": ["C03"],
+                     "kind_free_text": "Apalache 0.58: inductive invariant of specs/Lifecycle.tla (server hooks; run alongside C03, outside the property) through specs/apalache/MC_Lifecycle.tla"}],
         "checks": checks,
         "not_applicable": na,
         "notes": "All checks: ./check <id> [--tier quick|thorough] [--seed N] [--replay path]; exit 0 held / 1 VIOLATION / 2 machinery failure. known_findings.json lists recorded and fixed defects.",
